@@ -137,6 +137,10 @@ pub fn len_bucket(len: u32) -> u32 {
 pub struct Model {
     /// multiset of delivered records per stream, as (sorted at use) tape indices
     pub items: [Vec<u32>; 2],
+    /// lock-step machines (Paired): tape-1 index of the partner of items[0][j]
+    pub pair_b: Vec<u32>,
+    /// a non-finite record was absorbed but the machine maps it to a finite value (+inf into Harmonic)
+    pub soft_poisoned: bool,
     /// exact aggregates in the accumulation space, per stream
     pub agg: [Agg; 2],
     pub merges: u32,
@@ -161,6 +165,8 @@ impl Model {
             self.items[k].extend_from_slice(&o.items[k]);
             self.agg[k].merge(&o.agg[k]);
         }
+        self.pair_b.extend_from_slice(&o.pair_b);
+        self.soft_poisoned |= o.soft_poisoned;
         self.merges += o.merges + 1;
         self.depth = self.depth.max(o.depth) + 1;
         self.tree = crate::rng::mix(self.tree, "node", o.tree);
@@ -345,6 +351,7 @@ impl<M: Machine> World<M> {
             if M::LOCKSTEP {
                 for (j, &i) in idx[0].iter().enumerate() {
                     slot.model.items[0].push(i);
+                    slot.model.pair_b.push(idx[1][j]);
                     let (t, sq) = M::tspace(recs[0][j], recs[1][j]);
                     slot.model.agg[0].push(t, sq);
                 }
